@@ -52,7 +52,7 @@ func die(format string, a ...any) {
 }
 
 type stats struct {
-	Go, Lock, Unlock, Recv, Send, Select, RangeChan, RangeMap, RangeMapSkipped, RangeMapAtomic, WGWait, Sleep, AfterFunc, Ticker, FS int
+	Go, Lock, Unlock, Recv, Send, Select, RangeChan, RangeMap, RangeMapSkipped, RangeMapAtomic, WGWait, Sleep, AfterFunc, Ticker, FS, Atomic int
 }
 
 type rewriter struct {
@@ -262,6 +262,28 @@ func (rw *rewriter) syncMethod(c *ast.CallExpr) (recv ast.Expr, typ, method stri
 	return x, named.Obj().Name(), fn.Name(), true
 }
 
+// atomicOp reports whether the call is a function of sync/atomic or a method of one of its types.
+func (rw *rewriter) atomicOp(c *ast.CallExpr) bool {
+	if p, name := rw.pkgFunc(c); p == "sync/atomic" {
+		for _, pre := range []string{"Load", "Store", "Add", "Swap", "CompareAndSwap", "And", "Or"} {
+			if strings.HasPrefix(name, pre) {
+				return true
+			}
+		}
+		return false
+	}
+	se, isSel := c.Fun.(*ast.SelectorExpr)
+	if !isSel {
+		return false
+	}
+	s := rw.info.Selections[se]
+	if s == nil || s.Kind() != types.MethodVal {
+		return false
+	}
+	fn, isFn := s.Obj().(*types.Func)
+	return isFn && fn.Pkg() != nil && fn.Pkg().Path() == "sync/atomic"
+}
+
 func derefStruct(t types.Type) *types.Struct {
 	if p, ok := t.Underlying().(*types.Pointer); ok {
 		t = p.Elem()
@@ -352,6 +374,22 @@ func (rw *rewriter) file(f *ast.File) bool {
 		case *ast.FuncDecl:
 			fnStack = fnStack[:len(fnStack)-1]
 		case *ast.CallExpr:
+			if rw.atomicOp(n) {
+				// a scheduling point in front of every sync/atomic operation (declined at the lock-yield rate):
+				// check-then-act sequences around atomically published state get preempted too
+				switch c.Parent().(type) {
+				case *ast.DeferStmt, *ast.GoStmt:
+					return true
+				}
+				if tv, ok := rw.info.Types[n]; ok && tv.IsVoid() {
+					c.Replace(call(sel("PreDo"), call(sel("AtomicPt")), &ast.FuncLit{Type: &ast.FuncType{Params: &ast.FieldList{}}, Body: &ast.BlockStmt{List: []ast.Stmt{&ast.ExprStmt{X: n}}}}))
+				} else {
+					c.Replace(call(sel("Pre"), call(sel("AtomicPt")), n))
+				}
+				rw.st.Atomic++
+				mark()
+				return true
+			}
 			if recv, typ, m, ok := rw.syncMethod(n); ok {
 				switch {
 				case (typ == "Mutex" || typ == "RWMutex") && (m == "Lock" || m == "Unlock" || m == "RLock" || m == "RUnlock"):
